@@ -23,6 +23,10 @@ import LibfiberVerif.Model.Sleep
 import LibfiberVerif.Model.Spin
 import LibfiberVerif.Model.WorkQueue
 import LibfiberVerif.Model.Wsd
+import LibfiberVerif.Model.Signal
+import LibfiberVerif.Model.MultiSignal
+import LibfiberVerif.Model.Chan
+import LibfiberVerif.Model.MultiChan
 
 namespace LibfiberVerif
 
@@ -44,7 +48,9 @@ def registry : List (String × (List String → IO UInt32)) := [
   ("Sleep", Sleep.drive),
   ("Spin", Spin.drive),
   ("WorkQueue", WorkQueue.drive),
-  ("Wsd", Wsd.drive)
+  ("Wsd", Wsd.drive),
+  ("Signal", Signal.drive), ("MultiSignal", MultiSignal.drive),
+  ("Chan", Chan.drive), ("MultiChan", MultiChan.drive)
 ]
 
 end LibfiberVerif
